@@ -94,6 +94,7 @@ void h_create_internal (void)
 	}
 	OBL (g_pcreate_ok == 1 && g_pcreate_fn == thread_fn && g_pcreate_arg == (void *) t, "exactly one thread is started, with the handle as its argument");
 	OBL (g_allocs == g_frees + 1 && t->base.joinable == joinable && t->base.prio == (PUThreadPriority) prio, "one handle block, joinable/priority recorded");
+	OBL (t->base.ret_code == 0, "a new handle carries exit code 0: p_uthread_join reports 0 for a thread whose function simply returns (only p_uthread_exit stores a code)");
 	if (g_pcreates == 2) CANARY ("retried after EPERM");
 	p_uthread_free_internal (t);
 	OBL (g_allocs == g_frees, "free_internal releases the handle");
